@@ -1079,6 +1079,24 @@ def x_consumes(x):
     return False
 
 
+def x_hang_prone(x):
+    """contains an Array(None, T) whose element type does not raise BufferEmptyError at the end of the
+    buffer (Struct(), Array(0, T), a nested Array(None, ..), PCCC types, n_bytes(0)...): decoding may
+    not terminate (property C08); such cases cost a full time budget on the implementation"""
+    k = x[0]
+    if k == "arrall":
+        return (not x_consumes(x[1]) and x[1][0] != "nbytes") or (x[1][0] == "nbytes" and x[1][1] == 0) or x_hang_prone(x[1])
+    if k == "arr":
+        return x_hang_prone(x[2])
+    if k == "arrp":
+        return x_hang_prone(x[2]) or x_hang_prone(x[3])
+    if k == "struct":
+        return any(x_hang_prone(t) for _, t in x[2])
+    if k == "stag":
+        return any(x_hang_prone(t) for _, _, t in x[1])
+    return False
+
+
 def x_always_decodes(x):
     k = x[0]
     if k in ("bool", "real", "ip"):
